@@ -62,7 +62,9 @@ pub struct Chitchat {
     cluster_state: ClusterState,
     failure_detector: FailureDetector,
     /// Notifies listeners when a change has occurred in the set of live nodes.
-    previous_live_nodes: HashMap<ChitchatId, Version>,
+    /// (max version, outcome of the extra liveness predicate) of the live nodes, as of the last
+    /// liveness update.
+    previous_live_nodes: HashMap<ChitchatId, (Version, bool)>,
     live_nodes_watcher_tx: watch::Sender<BTreeMap<ChitchatId, NodeState>>,
     live_nodes_watcher_rx: watch::Receiver<BTreeMap<ChitchatId, NodeState>>,
 }
@@ -220,11 +222,23 @@ impl Chitchat {
                 self.failure_detector.update_node_liveness(chitchat_id);
             }
         }
+        // The outcome of the extra predicate is part of what we diff: it can change without any
+        // change of the max version (e.g. when a key with a TTL is garbage collected).
         let current_live_nodes = self
             .live_nodes()
             .flat_map(|chitchat_id| {
                 if let Some(node_state) = self.node_state(chitchat_id) {
-                    return Some((chitchat_id.clone(), node_state.max_version()));
+                    let passes_extra_predicate = self
+                        .config
+                        .extra_liveness_predicate
+                        .as_ref()
+                        .is_none_or(|liveness_extra_predicate| {
+                            liveness_extra_predicate(node_state)
+                        });
+                    return Some((
+                        chitchat_id.clone(),
+                        (node_state.max_version(), passes_extra_predicate),
+                    ));
                 }
                 warn!("node state for {chitchat_id:?} is absent");
                 None
@@ -233,16 +247,13 @@ impl Chitchat {
 
         if self.previous_live_nodes != current_live_nodes {
             let live_nodes = current_live_nodes
-                .keys()
-                .cloned()
-                .flat_map(|chitchat_id| {
-                    let node_state = self.node_state(&chitchat_id)?;
-                    if let Some(liveness_extra_predicate) = &self.config.extra_liveness_predicate {
-                        if !liveness_extra_predicate(node_state) {
-                            return None;
-                        }
+                .iter()
+                .flat_map(|(chitchat_id, (_, passes_extra_predicate))| {
+                    if !passes_extra_predicate {
+                        return None;
                     }
-                    Some((chitchat_id, node_state.clone()))
+                    let node_state = self.node_state(chitchat_id)?;
+                    Some((chitchat_id.clone(), node_state.clone()))
                 })
                 .collect::<BTreeMap<_, _>>();
             self.previous_live_nodes = current_live_nodes;
